@@ -39,7 +39,12 @@ def _resolve_names(definition_names, avoid_names=()):
             yield name
 
         if name.api_type == 'module':
-            yield from _resolve_names(name.goto(), definition_names)
+            # Pass on all names seen so far, otherwise import cycles longer than
+            # one step recurse forever.
+            yield from _resolve_names(
+                name.goto(),
+                list(avoid_names) + list(definition_names)
+            )
 
 
 def _dictionarize(names):
